@@ -30,7 +30,12 @@ IsNewOf(o, n) == o.op = "new" /\ o.as = n
 MidObs(ops, n) == IF \A i \in DOMAIN ops : ~IsNewOf(ops[i], n) THEN ops
                   ELSE LET k == CHOOSE i \in DOMAIN ops : IsNewOf(ops[i], n) IN
                        Flat([i \in DOMAIN ops |-> IF i >= k /\ i < Len(ops) THEN <<ops[i], ObsOp(n)>> ELSE <<ops[i]>>])
-MaybeMidObs(top) == IF (Len(top.ops) + Seed) % 2 = 0 THEN MidObs(top.ops, top.n) ELSE top.ops
+\* the same for every object: each call / field assignment is followed by a size query and an encoding of the object it acted on
+\* (objects that are not encodable are skipped by the interpreter)
+TargetOf(o) == IF o.op = "new" THEN o.as ELSE o.obj
+MidObsAll(ops) == Flat([i \in DOMAIN ops |-> IF i < Len(ops) /\ ops[i].op \in {"new", "set", "call"} THEN <<ops[i], ObsOp(TargetOf(ops[i]))>> ELSE <<ops[i]>>])
+MaybeMidObs(top) == LET h == (Len(top.ops) + Seed) % 4 IN
+                    IF h = 0 THEN MidObs(top.ops, top.n) ELSE IF h = 2 THEN MidObsAll(top.ops) ELSE top.ops
 EmitK(fam, top, watched, kids) ==
   PrintT(ToJson([k |-> "build", fam |-> fam, top |-> top.n, ops |-> MaybeMidObs(top),
                  observe |-> ObsOrder(top, watched),
@@ -73,7 +78,7 @@ NextMR == \/ \E idx \in 0..15, f \in {0, 5, 31}, w \in {1, 8, 32}, tag \in Tags 
                /\ f + w <= 32
                /\ c' = <<idx, f, w, tag>>
                /\ LET r == RegField("f1", idx, tag, f, f + w - 1) IN Emit("MR", FlowModEl("m", 0, <<r>>, <<>>, tag), <<r>>)
-          \/ \E name \in {"NXM_NX_REG5", "NXM_NX_CT_MARK", "NXM_NX_TUN_ID", "NXM_NX_XXREG1", "NXM_NX_CT_LABEL", "NXM_OF_ETH_DST", "NXM_NX_CT_ZONE"},
+          \/ \E name \in {"NXM_NX_REG5", "NXM_NX_CT_MARK", "NXM_NX_TUN_ID", "NXM_NX_XXREG1", "NXM_NX_CT_LABEL", "OXM_OF_ETH_DST", "NXM_NX_CT_ZONE"},
                 form \in {"plain", "start", "range", "shift", "noshift"}, start \in {0, 1, 4, 8, 9, 15}, dbits \in {{0}, {0, 2}, {1, 3, 6}, {0, 7}}, tag \in Tags :
                /\ start + SetMax(dbits) + 1 <= 8 * WidthOf(name)                     \* generic builder: every calling convention x window position
                /\ (form = "plain" => start = 0)
@@ -163,6 +168,9 @@ NextN == \E tag \in Tags :
                 /\ c' = <<parts, tag>>
                 /\ LET nat == NatEl("a1", parts, tag) IN
                    Emit("N", ActSeqIn("ct", "m", <<nat>>, tag), <<nat>>)
+           \/ \E parts \in {{"4min"}, {"4min", "4max"}, {"6min", "pmin"}, {"4min", "4max", "pmin", "pmax"}, NatParts} :
+                /\ c' = <<"twice", parts, tag>>
+                /\ LET nat == NatTwiceEl("a1", parts, tag) IN Emit("N", ActSeqIn("ct", "m", <<nat>>, tag), <<nat>>)
            \/ \E l \in 1..3 : \E calls \in [1..l -> {"SetSNAT", "SetDNAT", "SetPersistent", "SetProtoHash", "SetRandom"}] :
                 /\ c' = <<"natflags", calls, tag>>
                 /\ LET nat == NatFlagsEl("a1", calls, tag) IN Emit("N", ActSeqIn("ct", "m", <<nat>>, tag), <<nat>>)
